@@ -122,11 +122,36 @@ class Report:
         lines = []
         shutil.rmtree(os.path.join(REPLAY_DIR, self.prop),
                       ignore_errors=True)
+        confirmed, disconfirmed = 0, 0
         for sig, vs in groups.items():
             vs.sort(key=lambda v: len(json.dumps(v.get("case"),
                                                  default=_json_default)))
-            v = vs[0]
-            path = write_replay(v)
+            # every counterexample is re-executed in a fresh interpreter
+            # before it is reported (guards against contamination by
+            # process-global state and other nondeterminism)
+            chosen, path, verdict = vs[0], None, None
+            tried = set()
+            for v in vs:
+                key = json.dumps(v.get("case"), sort_keys=True,
+                                 default=_json_default)
+                if key in tried:
+                    continue
+                tried.add(key)
+                path = write_replay(v)
+                verdict = confirm_replay(self.prop, path, v)
+                chosen = v
+                if verdict is not False or len(tried) >= 4:
+                    break
+            v = chosen
+            if verdict is False:
+                disconfirmed += 1
+                self.harness_errors.append(
+                    f"HARNESS-UNCONFIRMED: clause={v['clause']} site="
+                    f"{v.get('site', '')} ({len(vs)} reports) did not "
+                    "reproduce in a fresh interpreter; not reported as a "
+                    "violation")
+                continue
+            confirmed += 1
             lines.append(f"VIOLATION property={self.prop} replay={path}")
             print(f"  clause={v['clause']} site={v.get('site', '')} "
                   f"count={len(vs)} witness={v.get('witness', '')}")
@@ -146,7 +171,7 @@ class Report:
             "coverage": cov,
             "assumptions": self.assumptions,
             "wall_s": round(wall, 2),
-            "violations": len(new),
+            "violations": len(lines),
         }
         os.makedirs(EVIDENCE_DIR, exist_ok=True)
         evpath = os.path.join(EVIDENCE_DIR, f"{self.prop}.json")
@@ -158,14 +183,17 @@ class Report:
         print(f"[{self.prop}] tier={self.tier} wall={wall:.1f}s {summ}")
         for ln in lines:
             print(ln)
+        for h in self.harness_errors[:10]:
+            print("HARNESS-ERROR:", h)
+        if lines:
+            # at least one violation reproduced independently
+            return 1
         if self.harness_errors:
-            for h in self.harness_errors[:10]:
-                print("HARNESS-ERROR:", h)
             return 2
         if not ok_schema:
             print("HARNESS-ERROR: evidence file does not validate")
             return 2
-        return 1 if new else 0
+        return 0
 
 
 def _json_default(o):
@@ -178,6 +206,28 @@ def _json_default(o):
     except ImportError:
         pass
     return repr(o)
+
+
+NO_REPLAY_KINDS = ("bijection", "proc", "plugin")
+
+
+def confirm_replay(prop, path, v):
+    """True: reproduced in a fresh interpreter; False: it ran and did not
+    reproduce; None: could not be decided (treated as reported)."""
+    if v.get("kind") in NO_REPLAY_KINDS or \
+            os.environ.get("VERIF_NO_CONFIRM"):
+        return None
+    try:
+        r = subprocess.run([sys.executable, "-m", "mc.run", prop,
+                            "--replay", path], cwd=VERIF_ROOT,
+                           capture_output=True, text=True, timeout=900)
+    except (OSError, subprocess.TimeoutExpired):
+        return None
+    if r.returncode == 1 and "REPLAY-VIOLATION" in r.stdout:
+        return True
+    if r.returncode == 0 and "REPLAY-OK" in r.stdout:
+        return False
+    return None
 
 
 def write_replay(v):
